@@ -1358,7 +1358,7 @@ impl<'a> G<'a> {
                 },
             };
             let real: Vec<Sig> = av.clone();
-            let mut kind = self.d.weighted(&[6, 6, 2, 2, if children.is_empty() { 0 } else { 3 }, 1]);
+            let mut kind = self.d.weighted(&[12, 12, 4, 4, if children.is_empty() { 0 } else { 6 }, 2, 1]);
             if !self.allow.is_empty() && self.d.chance(1, 2) {
                 let a = &self.allow;
                 if a.contains(&Hz::AlwaysBody) || a.contains(&Hz::ForLe) || a.contains(&Hz::ForStep) || a.contains(&Hz::Casez) || a.contains(&Hz::CaseArmBlock) || a.contains(&Hz::CompoundAssign) {
@@ -1594,6 +1594,49 @@ impl<'a> G<'a> {
                     }
                     items.push(String::new());
                     decl_kw = *self.d.pick(&["logic", "wire"]);
+                }
+                6 => {
+                    // constructs the translator reports as unsupported: the case then lies
+                    // outside the property's domain (this measures the unsupported rate)
+                    decl_kw = "logic";
+                    let e = self.rhs(&real, &funcs, 2);
+                    match self.d.below(4) {
+                        0 => {
+                            self.class("reported:always @(*)");
+                            let star = if self.d.bool() { "@(*)" } else { "@*" };
+                            items.push(format!("{}always {star} {} = {e};", self.st.ind, target.name));
+                            if let Some(oi) = out_index {
+                                out_kind[oi] = 1;
+                            }
+                        }
+                        1 => {
+                            self.class("reported:initial");
+                            items.push(format!("{}assign {} = {e};", self.st.ind, target.name));
+                            items.push(format!("{}initial $display(\"{}\");", self.st.ind, name));
+                        }
+                        2 => {
+                            self.class("reported:always_latch");
+                            let c = self.cond(&real, &funcs);
+                            items.push(format!("{}always_latch if ({c}) {} = {e};", self.st.ind, target.name));
+                            if let Some(oi) = out_index {
+                                out_kind[oi] = 1;
+                            }
+                        }
+                        _ => {
+                            self.class("reported:descending-for");
+                            let n = target.w;
+                            let mut b: Vec<String> = vec![];
+                            self.block_open(&mut b, 1, "always_comb");
+                            self.block_open(&mut b, 2, &format!("for (int i = {}; i >= 0; i--)", n - 1));
+                            push(&mut b, self.st.ind, 3, &format!("{}[i] = i[0];", target.name));
+                            push(&mut b, self.st.ind, 2, "end");
+                            push(&mut b, self.st.ind, 1, "end");
+                            items.extend(b);
+                            if let Some(oi) = out_index {
+                                out_kind[oi] = 1;
+                            }
+                        }
+                    }
                 }
                 _ => {
                     // small memory read through an index (finding Unpacked) — otherwise an assignment
